@@ -66,6 +66,17 @@ func Check(tr *Trace, w Which) ([]Finding, Classes) {
 		}
 	}
 	h := tr.H
+	if len(h.Reenter) > 0 {
+		// re-entrant histories are decided by the C01 oracle only (order, loss accounting and eviction
+		// cause are defined for calls that do not nest)
+		w = Which{C01: w.C01}
+	}
+	opByID := func(id int) *Op {
+		if id < len(h.Ops) {
+			return &h.Ops[id]
+		}
+		return &h.Reenter[id-len(h.Ops)].Op
+	}
 	if tr.Panic != "" {
 		add("ANY", "panic", "panic while executing history: %s", tr.Panic)
 		return fs, cl
@@ -238,6 +249,32 @@ func Check(tr *Trace, w Which) ([]Finding, Classes) {
 		// --- callbacks of this call, in order ---
 		expLost, gotLost := int64(0), int64(0)
 		for ci, cb := range st.CBs {
+			if cb.Nested == 1 {
+				// a re-entrant call starts here: its own effect on the reference buffer
+				nop := h.Reenter[cb.NOp].Op
+				if nop.Kind == OpPushMsg && !closed {
+					id := len(h.Ops) + cb.NOp
+					e := open[nop.Seq]
+					if nop.Type == TypeEOE {
+						if e != nil {
+							e.complete = true
+						}
+					} else {
+						if e == nil {
+							e = &inst{seq: nop.Seq, off: h.Off(nop.Seq), firstOp: k}
+							open[nop.Seq] = e
+						}
+						e.msgs = append(e.msgs, id)
+						if Completes(nop.Type) {
+							e.complete = true
+						}
+					}
+				}
+				continue
+			}
+			if cb.Nested == 2 {
+				continue
+			}
 			if cb.Lost >= 0 {
 				cl.LostReports++
 				gotLost += int64(cb.Lost)
@@ -267,10 +304,10 @@ func Check(tr *Trace, w Which) ([]Finding, Classes) {
 					if id < 0 {
 						add("C01", "fabricated-message", "op %d cb %d: delivered message %d (seq=%d type=%d) was never pushed (or its Payload was altered)", k, ci, j, s, cb.Types[j])
 					} else {
-						if h.Ops[id].Seq != s || h.Ops[id].Type != cb.Types[j] {
-							add("C01", "message-altered", "op %d cb %d: delivered message pushed by op %d has seq/type %d/%d, pushed as %d/%d", k, ci, id, s, cb.Types[j], h.Ops[id].Seq, h.Ops[id].Type)
+						if opByID(id).Seq != s || opByID(id).Type != cb.Types[j] {
+							add("C01", "message-altered", "op %d cb %d: delivered message pushed by op %d has seq/type %d/%d, pushed as %d/%d", k, ci, id, s, cb.Types[j], opByID(id).Seq, opByID(id).Type)
 						}
-						if h.Ops[id].Type == TypeEOE {
+						if opByID(id).Type == TypeEOE {
 							add("C01", "eoe-delivered", "op %d cb %d: EOE message pushed by op %d was delivered", k, ci, id)
 						}
 					}
@@ -357,6 +394,18 @@ func Check(tr *Trace, w Which) ([]Finding, Classes) {
 		}
 		if op.Kind == OpClose && !closed {
 			closed = true
+			for sq, e := range open {
+				// records pushed from inside Close's own callbacks arrive after Close was invoked: not covered
+				keep := false
+				for _, id := range e.msgs {
+					if id < len(h.Ops) {
+						keep = true
+					}
+				}
+				if !keep {
+					delete(open, sq)
+				}
+			}
 			if len(open) > 0 && (w.C01 || w.C19) {
 				var left []uint32
 				for s := range open {
